@@ -1,90 +1,267 @@
 (* Props/C19.v -- property C19: plug-in lookup is deterministic, case-insensitive, side-effect free.
-   Only statements; each is closed by a lemma of Proofs/Registry.v. *)
-From Coq Require Import List Bool Arith String Ascii.
+   Only statements; each is closed by a lemma of Proofs/Registry.v.
+   `oinit` is the "optimizer" registry of a freshly constructed manager (what the external plug-in consults);
+   every statement holds for all `oinit`, all registries / managers / universes and all operation sequences. *)
+From Coq Require Import List Bool Arith String Ascii Permutation.
 From Ropt Require Import Model.Registry Proofs.Registry.
 Import ListNotations.
 
-(* names stay pairwise distinct (after lower-casing) for every operation sequence *)
-Theorem C19_nodup : forall init ops r,
-  NoDup (names r) -> NoDup (names (snd (run init r ops))).
+(* ---- the dict operations of add_plugin ------------------------------------------------------------- *)
+(* d[k] = v on a new key appends; {k: v}.update(d) on a new key puts (k, v) in front and keeps d's order *)
+Theorem C19_dict_append : forall d k v, ~ In k (names d) -> dset d k v = d ++ [(k, v)].
+Proof. exact dset_fresh. Qed.
+Theorem C19_dict_prioritize : forall d k v, NoDup (names d) -> ~ In k (names d) -> dupdate [(k, v)] d = (k, v) :: d.
+Proof. exact dupdate_single_fresh. Qed.
+
+(* ---- registrations ----------------------------------------------------------------------------------- *)
+(* names stay pairwise distinct and lower-case for every operation sequence *)
+Theorem C19_nodup : forall oinit ops r,
+  NoDup (names r) -> NoDup (names (snd (run oinit r ops))).
 Proof. exact run_names_nodup. Qed.
 
-(* a name equal up to case to a registered one is rejected, also when prioritised; state unchanged *)
-Theorem C19_duplicate_rejected : forall init r n p prio,
-  In (lower n) (names r) -> step init r (Add n p prio) = (r, AErr).
+Theorem C19_names_lowercase : forall oinit ops r,
+  Forall (fun k => lower k = k) (names r) -> Forall (fun k => lower k = k) (names (snd (run oinit r ops))).
+Proof. exact run_names_lower. Qed.
+
+(* a name equal up to case to a registered one is rejected, also when prioritised; the registry (content AND
+   order) is unchanged; and ConfigError is raised only then *)
+Theorem C19_duplicate_rejected : forall oinit r n p prio,
+  In (lower n) (names r) -> step oinit r (Add n p prio) = (r, AErr).
 Proof. exact add_duplicate_rejected. Qed.
+
+Theorem C19_add_error_iff_duplicate : forall oinit r n p prio,
+  snd (step oinit r (Add n p prio)) = AErr <-> In (lower n) (names r).
+Proof. exact add_err_iff. Qed.
+
+Theorem C19_add_accepted : forall oinit r n p prio, NoDup (names r) -> ~ In (lower n) (names r) ->
+  step oinit r (Add n p prio) = ((if prio then (lower n, p) :: r else r ++ [(lower n, p)]), AOk).
+Proof. exact add_fresh. Qed.
+
+Theorem C19_add_case_insensitive : forall oinit r n n' p prio,
+  lower n = lower n' -> step oinit r (Add n p prio) = step oinit r (Add n' p prio).
+Proof. exact add_case. Qed.
 
 (* lookup order after any sequence: prioritised plug-ins, most recent first; then the initial ones;
    then the others in registration order *)
-Theorem C19_order : forall init ops r seen,
+Theorem C19_order : forall oinit ops r seen, NoDup (names r) ->
   (forall n, In n seen <-> In n (names r)) ->
-  snd (run init r ops) = rev (prio_part (accepted seen ops)) ++ r ++ norm_part (accepted seen ops).
+  snd (run oinit r ops) = rev (prio_part (accepted seen ops)) ++ r ++ norm_part (accepted seen ops).
 Proof. exact run_order. Qed.
 
-(* "P/m" consults only the plug-in registered under lower P (split at the first slash) ... *)
-Theorem C19_get_qualified : forall init r P m, no_slash P = true ->
-  get init r (P ++ String "/"%char m) =
+(* ---- lookups ------------------------------------------------------------------------------------------ *)
+(* every request is either bare or of the form P/m with P slash-free (split at the FIRST slash) *)
+Theorem C19_request_shapes : forall s,
+  (no_slash s = true /\ split_slash s = (s, None)) \/
+  (exists P m, no_slash P = true /\ s = (P ++ String "/"%char m)%string /\ split_slash s = (P, Some m)).
+Proof. exact split_slash_cases. Qed.
+
+(* "P/m" consults only the plug-in registered under lower P, with m handed over verbatim ... *)
+Theorem C19_get_qualified : forall oinit r P m, no_slash P = true ->
+  get oinit r (P ++ String "/"%char m) =
     match find_name r (lower P) with
-    | Some p => if supports init (fuel_of m) p m then Some p else None
+    | Some p => if sup1 oinit p m then Some p else None
     | None => None
     end.
 Proof. exact get_qualified. Qed.
 
-(* ... for every casing of P *)
-Theorem C19_get_qualified_case : forall init r P P' m,
+(* ... for every casing of P ... *)
+Theorem C19_get_qualified_case : forall oinit r P P' m,
   no_slash P = true -> no_slash P' = true -> lower P = lower P' ->
-  get init r (P ++ String "/"%char m) = get init r (P' ++ String "/"%char m).
+  get oinit r (P ++ String "/"%char m) = get oinit r (P' ++ String "/"%char m).
 Proof. exact get_qualified_case. Qed.
 
-(* a bare name returns the first plug-in in lookup order that is discoverable and supports it *)
-Theorem C19_get_bare : forall init r m p, no_slash m = true ->
-  (get init r m = Some p <->
-   exists r1 n r2, r = r1 ++ (n, p) :: r2 /\ disc p = true /\ supports init (fuel_of m) p m = true /\
-     (forall n' p', In (n', p') r1 -> disc p' && supports init (fuel_of m) p' m = false)).
-Proof. intros init r m p H. rewrite (get_bare init r m H). apply first_disc_spec. Qed.
+(* ... whatever else is registered (frame), and no other plug-in's is_supported is called *)
+Theorem C19_get_qualified_frame : forall oinit r r' P m,
+  no_slash P = true -> find_name r (lower P) = find_name r' (lower P) ->
+  get oinit r (P ++ String "/"%char m) = get oinit r' (P ++ String "/"%char m).
+Proof. exact get_qualified_frame. Qed.
 
-Theorem C19_bare_never_undiscoverable : forall init r m p,
-  no_slash m = true -> get init r m = Some p -> disc p = true /\ exists n, In (n, p) r.
+Theorem C19_qualified_consults_only_named : forall oinit r P m, no_slash P = true ->
+  consulted oinit r (P ++ String "/"%char m) =
+    match find_name r (lower P) with Some p => [(pid p, m)] | None => [] end.
+Proof. exact consulted_qualified. Qed.
+
+(* a bare name returns the first plug-in in lookup order that is discoverable and supports it *)
+Theorem C19_get_bare : forall oinit r m p, no_slash m = true ->
+  (get oinit r m = Some p <->
+   exists r1 n r2, r = r1 ++ (n, p) :: r2 /\ disc p = true /\ sup1 oinit p m = true /\
+     (forall n' p', In (n', p') r1 -> disc p' && sup1 oinit p' m = false)).
+Proof. intros oinit r m p H. rewrite (get_bare oinit r m H). apply first_disc_spec. Qed.
+
+Theorem C19_bare_never_undiscoverable : forall oinit r m p,
+  no_slash m = true -> get oinit r m = Some p -> disc p = true /\ exists n, In (n, p) r.
 Proof. exact bare_never_undiscoverable. Qed.
 
-Theorem C19_is_supported_iff : forall init r m,
-  snd (step init r (Sup m)) = ABool true <-> exists id, snd (step init r (Get m)) = APlug id.
-Proof. exact is_supported_iff_get. Qed.
+(* a bare lookup only ever asks discoverable registered plug-ins, with the method verbatim *)
+Theorem C19_bare_consults_discoverable : forall oinit r m,
+  Forall (fun e => snd e = m /\ exists n p, In (n, p) r /\ pid p = fst e /\ disc p = true) (consulted_bare oinit r m).
+Proof. exact consulted_bare_spec. Qed.
 
-Theorem C19_unsupported_is_error : forall init r m,
-  snd (step init r (Sup m)) = ABool false <-> snd (step init r (Get m)) = AErr.
-Proof. exact is_supported_false_iff_error. Qed.
+(* ---- the external optimizer plug-in ------------------------------------------------------------------ *)
+(* the recursion bound of the model is never reached: any larger fuel gives the same answer ... *)
+Theorem C19_fuel_irrelevant : forall oinit, ext_hidden oinit ->
+  forall p m f, String.length m < f -> supports oinit f p m = sup1 oinit p m.
+Proof. exact sup1_fuel. Qed.
 
-(* operations on manager i leave every other manager untouched; lookups change nothing at all *)
-Theorem C19_isolation : forall init u i j o, i <> j ->
-  nth_error (fst (ustep init u (i, o))) j = nth_error u j.
-Proof. exact isolation. Qed.
+(* ... and the external plug-in supports m exactly when a fresh manager resolves m *)
+Theorem C19_external_forwards : forall oinit, ext_hidden oinit -> forall p m, kind p = External ->
+  sup1 oinit p m = match get oinit oinit m with Some _ => true | None => false end.
+Proof. exact external_supports. Qed.
 
-Theorem C19_lookups_pure : forall init u i o,
-  (forall n p prio, o <> Add n p prio) -> fst (ustep init u (i, o)) = u.
-Proof. exact lookups_leave_universe. Qed.
+(* ExternalOptimizer(...) resolves "external/m" in a fresh manager: no registration anywhere matters, and it
+   succeeds exactly when is_supported("external/m") holds *)
+Theorem C19_forwarding_ignores_registrations : forall oinit r r' m,
+  snd (step oinit r (Fwd m)) = snd (step oinit r' (Fwd m)).
+Proof. exact fwd_independent. Qed.
 
-(* non-vacuity: a concrete registry meets the hypotheses and exercises every branch *)
+Theorem C19_forwarding_agrees : forall oinit, ext_hidden oinit -> forall r p P m,
+  no_slash P = true -> find_name r (lower P) = Some p -> kind p = External ->
+  (snd (step oinit r (Fwd (P ++ String "/"%char m))) = AOk <->
+   snd (step oinit r (Sup (P ++ String "/"%char m))) = ABool true).
+Proof. exact fwd_agrees_with_is_supported. Qed.
+
+(* ---- is_supported ------------------------------------------------------------------------------------- *)
+(* is_supported is true exactly when get_plugin succeeds, false exactly when it raises ConfigError: in every
+   state of every manager of every universe, for every plug-in type *)
+Theorem C19_is_supported_iff : forall oinit u i t m,
+  snd (ustep oinit u (i, (t, Sup m))) = ABool true <-> exists id, snd (ustep oinit u (i, (t, Get m))) = APlug id.
+Proof. exact universe_sup_iff_get. Qed.
+
+Theorem C19_unsupported_is_error : forall oinit u i t m, (exists mg, nth_error u i = Some mg /\ t < List.length mg) ->
+  (snd (ustep oinit u (i, (t, Sup m))) = ABool false <-> snd (ustep oinit u (i, (t, Get m))) = AErr).
+Proof. exact universe_sup_false_iff_error. Qed.
+
+Theorem C19_lookup_total : forall oinit r m,
+  (exists b, snd (step oinit r (Sup m)) = ABool b) /\
+  ((exists id, snd (step oinit r (Get m)) = APlug id) \/ snd (step oinit r (Get m)) = AErr).
+Proof. intros. split; [apply is_supported_total | apply get_total]. Qed.
+
+(* declarative reading, without get_plugin: *)
+Theorem C19_is_supported_qualified : forall oinit r P m, NoDup (names r) -> no_slash P = true ->
+  (snd (step oinit r (Sup (P ++ String "/"%char m))) = ABool true <->
+   exists p, In (lower P, p) r /\ sup1 oinit p m = true).
+Proof. exact sup_qualified_spec. Qed.
+
+Theorem C19_is_supported_bare : forall oinit r m, no_slash m = true ->
+  (snd (step oinit r (Sup m)) = ABool true <->
+   exists n p, In (n, p) r /\ disc p = true /\ sup1 oinit p m = true).
+Proof. exact sup_bare_spec. Qed.
+
+(* hence is_supported does not depend on the lookup order (prioritisation changes WHICH plug-in, never WHETHER) *)
+Theorem C19_is_supported_order_irrelevant : forall oinit r r' m, NoDup (names r) -> Permutation r r' ->
+  snd (step oinit r (Sup m)) = snd (step oinit r' (Sup m)).
+Proof. exact sup_permutation. Qed.
+
+(* ---- side effects --------------------------------------------------------------------------------------- *)
+(* whatever was answered with an exception changed nothing, anywhere *)
+Theorem C19_rejected_is_noop : forall oinit u io,
+  snd (ustep oinit u io) = AErr \/ snd (ustep oinit u io) = ABad -> fst (ustep oinit u io) = u.
+Proof. exact ustep_error_noop. Qed.
+
+(* ... so a rejected operation can be erased from any sequence without changing a later answer or the final state *)
+Theorem C19_rejected_erasable : forall oinit u io t,
+  snd (ustep oinit u io) = AErr \/ snd (ustep oinit u io) = ABad ->
+  urun oinit u (io :: t) = (snd (ustep oinit u io) :: fst (urun oinit u t), snd (urun oinit u t)).
+Proof. exact urun_erase_rejected. Qed.
+
+(* lookups (get_plugin, is_supported, plugins, the external optimizer's constructor) change nothing at all *)
+Theorem C19_lookups_pure : forall oinit u i t o,
+  (forall n p prio, o <> Add n p prio) -> fst (ustep oinit u (i, (t, o))) = u.
+Proof. exact ustep_lookup_noop. Qed.
+
+Theorem C19_lookups_erasable : forall oinit u i ty o t, (forall n p prio, o <> Add n p prio) ->
+  urun oinit u ((i, (ty, o)) :: t) =
+    (snd (ustep oinit u (i, (ty, o))) :: fst (urun oinit u t), snd (urun oinit u t)).
+Proof. exact urun_erase_lookup. Qed.
+
+(* ---- isolation -------------------------------------------------------------------------------------------- *)
+(* operations on manager i leave every other manager untouched ... *)
+Theorem C19_isolation : forall oinit u i j to, i <> j ->
+  nth_error (fst (ustep oinit u (i, to))) j = nth_error u j.
+Proof. exact manager_isolation. Qed.
+
+(* ... and over a whole interleaved sequence manager j gives exactly the answers, and ends in exactly the state,
+   it would have had running alone on its own operations *)
+Theorem C19_isolation_trace : forall oinit ops u j m, nth_error u j = Some m ->
+  sel j ops (fst (urun oinit u ops)) = fst (mrun oinit m (proj j ops)) /\
+  nth_error (snd (urun oinit u ops)) j = Some (snd (mrun oinit m (proj j ops))).
+Proof. exact manager_isolation_trace. Qed.
+
+(* the same between the plug-in types of one manager *)
+Theorem C19_type_isolation : forall oinit m t t' o, t <> t' ->
+  nth_error (fst (mstep oinit m (t, o))) t' = nth_error m t'.
+Proof. exact type_isolation. Qed.
+
+Theorem C19_type_isolation_trace : forall oinit ops m t r, nth_error m t = Some r ->
+  sel t ops (fst (mrun oinit m ops)) = fst (run oinit r (proj t ops)) /\
+  nth_error (snd (mrun oinit m ops)) t = Some (snd (run oinit r (proj t ops))).
+Proof. exact type_isolation_trace. Qed.
+
+(* every registry of every manager keeps distinct names, whatever is interleaved *)
+Theorem C19_universe_nodup : forall oinit ops u, wf_universe u -> wf_universe (snd (urun oinit u ops)).
+Proof. exact urun_wf. Qed.
+
+(* non-vacuity: a concrete fresh manager meets the hypotheses and a sequence exercises every branch *)
 Example C19_example :
   let scipy := {| pid := 1; kind := Table ["slsqp"%string; "default"%string]; disc := true |} in
   let ext := {| pid := 0; kind := External; disc := false |} in
+  let smp := {| pid := 2; kind := Table ["sobol"%string]; disc := true |} in
   let a := {| pid := 10; kind := Table ["slsqp"%string]; disc := true |} in
-  let init := [("external"%string, ext); ("scipy"%string, scipy)] in
-  NoDup (names init) /\
-  fst (run init init [Add "A"%string a true; Add "a"%string a false; Get "SLSQP"%string;
-                      Get "external/slsqp"%string; Get "External/scipy/SLSQP"%string; Get "zzz"%string;
-                      Sup "a/slsqp"%string])
-  = [AOk; AErr; APlug 10; APlug 0; APlug 0; AErr; ABool true].
-Proof. split; [repeat constructor; cbn; intuition discriminate | vm_compute; reflexivity]. Qed.
+  let c := {| pid := 11; kind := Exact ["x/Y"%string]; disc := true |} in
+  let oinit := [("external"%string, ext); ("scipy"%string, scipy)] in
+  let fresh : manager := [oinit; [("scipy"%string, smp)]] in
+  NoDup (names oinit) /\ ext_hidden oinit /\ wf_universe [fresh; fresh] /\
+  urun oinit [fresh; fresh]
+       [(0, (0, Add "A"%string a true)); (0, (0, Add "a"%string a false)); (0, (0, Add "a"%string c true));
+        (0, (0, Get "SLSQP"%string)); (1, (0, Get "SLSQP"%string)); (0, (1, Get "slsqp"%string));
+        (0, (0, Get "external/slsqp"%string)); (0, (0, Get "External/scipy/SLSQP"%string));
+        (0, (0, Get "external/a/slsqp"%string)); (0, (0, Get "zzz"%string)); (0, (0, Sup "a/slsqp"%string));
+        (0, (1, Add "C"%string c false)); (0, (1, Get "c/x/Y"%string)); (0, (1, Sup "c/x/y"%string));
+        (0, (1, Lst)); (1, (0, Fwd "external/scipy/slsqp"%string)); (1, (0, Fwd "external/a/slsqp"%string));
+        (2, (0, Lst)); (0, (7, Lst))]
+  = ([AOk; AErr; AErr; APlug 10; APlug 1; AErr; APlug 0; APlug 0; AErr; AErr; ABool true;
+      AOk; APlug 11; ABool false; AList [("scipy"%string, 2); ("c"%string, 11)]; AOk; AErr; ABad; ABad],
+     [[("a"%string, a) :: oinit; [("scipy"%string, smp); ("c"%string, c)]]; fresh]).
+Proof.
+  cbv zeta. split; [repeat constructor; cbn; intuition discriminate|]. split.
+  - intros n p [H|[H|[]]] K; injection H as <- <-; [reflexivity | discriminate].
+  - split; [|vm_compute; reflexivity].
+    repeat constructor; cbn; intuition discriminate.
+Qed.
 
+Print Assumptions C19_dict_append.
+Print Assumptions C19_dict_prioritize.
 Print Assumptions C19_nodup.
+Print Assumptions C19_names_lowercase.
 Print Assumptions C19_duplicate_rejected.
+Print Assumptions C19_add_error_iff_duplicate.
+Print Assumptions C19_add_accepted.
+Print Assumptions C19_add_case_insensitive.
 Print Assumptions C19_order.
+Print Assumptions C19_request_shapes.
 Print Assumptions C19_get_qualified.
 Print Assumptions C19_get_qualified_case.
+Print Assumptions C19_get_qualified_frame.
+Print Assumptions C19_qualified_consults_only_named.
 Print Assumptions C19_get_bare.
 Print Assumptions C19_bare_never_undiscoverable.
+Print Assumptions C19_bare_consults_discoverable.
+Print Assumptions C19_fuel_irrelevant.
+Print Assumptions C19_external_forwards.
+Print Assumptions C19_forwarding_ignores_registrations.
+Print Assumptions C19_forwarding_agrees.
 Print Assumptions C19_is_supported_iff.
 Print Assumptions C19_unsupported_is_error.
-Print Assumptions C19_isolation.
+Print Assumptions C19_lookup_total.
+Print Assumptions C19_is_supported_qualified.
+Print Assumptions C19_is_supported_bare.
+Print Assumptions C19_is_supported_order_irrelevant.
+Print Assumptions C19_rejected_is_noop.
+Print Assumptions C19_rejected_erasable.
 Print Assumptions C19_lookups_pure.
+Print Assumptions C19_lookups_erasable.
+Print Assumptions C19_isolation.
+Print Assumptions C19_isolation_trace.
+Print Assumptions C19_type_isolation.
+Print Assumptions C19_type_isolation_trace.
+Print Assumptions C19_universe_nodup.
